@@ -536,6 +536,24 @@ def processLine (st : DState) (lineNo : Nat) (line : String) : DState × String 
                  (if idx && w.mkt.registry == some w.regAddr then [] else ["oIdx"])
       ({ cur := w, started := true, charged := ghostInit w }, s!"A {lineNo} INIT O={join orc}")
     | none => (st, s!"E {lineNo} bad-world")
+  | "INST" :: _ =>
+    -- the state right after instantiation + reply equals the model's `instantiate`
+    let w := st.cur
+    let m0 := instantiate w.nowNs (some w.regAddr)
+    let same := w.mkt.listings.isEmpty && w.mkt.buckets.isEmpty &&
+      sortNats w.mkt.listingUsed == sortNats m0.listingUsed && sortNats w.mkt.bucketUsed == sortNats m0.bucketUsed &&
+      w.mkt.feeKind == m0.feeKind && w.mkt.feeSince == m0.feeSince && w.mkt.registry == m0.registry
+    (st, s!"A {lineNo} INST agree={if same then 1 else 0} O=-")
+  | "REPLY" :: rest =>
+    let p : P String := do
+      let id ← nat
+      let a ← rawAddr
+      let t ← tok
+      let mr := match reply st.cur.mkt id a with | .ok _ => true | .error _ => false
+      pure s!"REPLY agree={if mr == (t == "ok") then 1 else 0} O={if id != 1 && t == "ok" then "o15r" else "-"}"
+    (match p rest with
+     | some (ans, _) => (st, s!"A {lineNo} {ans}")
+     | none => (st, s!"E {lineNo} bad-REPLY"))
   | "DRAIN" :: _ => ({ st with drain := true }, s!"A {lineNo} DRAIN")
   | "ENDDRAIN" :: _ =>
     let w := st.cur
